@@ -55,8 +55,14 @@ impl Drop for State {
     fn drop(&mut self) {
         let is_rx_open = !self.rx.is_closed();
         let is_tx_open = !self.tx.is_closed();
+        // The application may have learned about a reset through a response status (e.g. by
+        // calling `stop_sending` on a stream which had already been reset by the peer) rather
+        // than by reading it from the stream. In that case the receiving half still needs to be
+        // detached, otherwise the stream would never be released and its stream credit would
+        // never be returned to the peer.
+        let is_rx_reset = self.rx.is_reset();
 
-        if is_rx_open || is_tx_open {
+        if is_rx_open || is_tx_open || is_rx_reset {
             let mut request = self.request();
 
             if is_tx_open {
@@ -73,6 +79,8 @@ impl Drop for State {
                 request
                     .stop_sending(application::Error::UNKNOWN)
                     .detach_rx();
+            } else if is_rx_reset {
+                request.detach_rx();
             }
 
             let _ = request.poll(None);
